@@ -1,7 +1,5 @@
 import SeqVerif.Consistency.Tokenizer
 import SeqVerif.Model.SeqQLLexerLemmas
-import SeqVerif.Extracted.C11
-import SeqVerif.Extracted.C12
 /-!
 # Consistency wave 2 (topic a): rune classes of the SeqQL lexer vs the classes of the term builders / tokenizers
 
@@ -14,8 +12,8 @@ NOT duplicates: the lexer (`spanToken`, `lexNext`) uses `SV.Parser.isTokenRune` 
 `isComposite` (SeqQLFilter.lean) and `skipSpaces` (LegacyParser.lean) use; there is no second token-rune predicate.
 What IS written more than once and is related here: the wildcard rune (`wildcardRn` record in the lexer vs `wildcardCp` /
 the `nameBytes` pattern in SeqQLFilter), the literal-asterisk rune (`starRn` vs the `cp = 42` tests of `isWordRune` /
-`isTextRn`), the space-skipping loops (`lexSkipSpaces` vs `skipSpaces`), the class inclusion token rune ⊂ word rune, and
-the same source conditions extracted twice (Extracted/C11 and Extracted/C12).
+`isTextRn`), the space-skipping loops (`lexSkipSpaces` vs `skipSpaces`), and the class inclusion token rune ⊂ word rune.
+(The comparison of the conditions extracted twice - Extracted/C11 vs Extracted/C12 - was removed: see the end of the file.)
 -/
 namespace SV.Consistency
 open SV.Parser SV.Tok
@@ -149,32 +147,12 @@ theorem cons_lexcls_lexSkipSpaces_flag (sp : Bool) (q : List QRn) :
       rw [h2]; simp
     · simp
 
-/-! ## the same Go conditions extracted twice (Extracted/C11 and Extracted/C12, both regenerated on every run) -/
+/-! ## removed (no Consistency module may import `SeqVerif.Extracted.*`: those files are regenerated by every check run)
 
-/-- `textTokenBuilder.isIndexed` (parser/term_builder.go): C11's and C12's extractors read the same two conditions -/
-theorem cons_lexcls_extracted_legacyWordRune_c11_eq_c12 :
-    SV.Extracted.C11.legacyIsIndexedConds = SV.Extracted.C12.legacyWordRuneConds := by decide
-
-/-- `parseSeqQLText` (parser/seqql_filter.go): the word-rune condition C12 extracts is the one in C11's condition list -/
-theorem cons_lexcls_extracted_seqqlWordRune_c12_in_c11 :
-    ∀ c, c ∈ SV.Extracted.C12.seqqlWordRuneConds → c ∈ SV.Extracted.C11.seqqlTextConds := by decide
-
-/-- index side (tokenizer byte table + `unicode` fallback, Extracted/C11) and query side (Extracted/C12) name the same
-non-letter word characters `_` and `*`, and the same `unicode` test -/
-theorem cons_lexcls_extracted_index_vs_query_word_class :
-    SV.Extracted.C11.isTextTokenConds[1]? = some "i == '_' || i == '*'" ∧
-    SV.Extracted.C12.legacyWordRuneConds[1]? = some "c == '_' || c == '*'" ∧
-    "unicode.IsLetter(r) || unicode.IsNumber(r)" ∈ SV.Extracted.C11.textTokenizerConds ∧
-    SV.Extracted.C12.legacyWordRuneConds[0]? = some "unicode.IsLetter(c) || unicode.IsNumber(c)" := by decide
-
-/-- `seq.TokenizerType` numbering (Extracted/C12) under the four Lean enumerations of wave 1: the numbering is injective
-on `SV.Parser.FT`, i.e. the eight constructors stand for eight different Go constants -/
-def lexclsFTCode : FT → Nat
-  | .noop => SV.Extracted.C12.ttNoop | .keyword => SV.Extracted.C12.ttKeyword | .text => SV.Extracted.C12.ttText
-  | .object => SV.Extracted.C12.ttObject | .tags => SV.Extracted.C12.ttTags | .path => SV.Extracted.C12.ttPath
-  | .nested => SV.Extracted.C12.ttNested | .exists => SV.Extracted.C12.ttExists
-
-theorem cons_lexcls_ftCode_injective (a b : FT) (h : lexclsFTCode a = lexclsFTCode b) : a = b := by
-  cases a <;> cases b <;> first | rfl | (exact absurd h (by decide))
+`cons_lexcls_extracted_legacyWordRune_c11_eq_c12`, `cons_lexcls_extracted_seqqlWordRune_c12_in_c11`,
+`cons_lexcls_extracted_index_vs_query_word_class`, `lexclsFTCode` / `cons_lexcls_ftCode_injective` compared the same Go
+conditions / constants as extracted by C11 and by C12.  They are covered by the per-property obligations in Props:
+`c11_x_word_class`, `c11_x_tables` (Props/C11.lean) and `c12_x_rune_predicates`, `c12_x_type_switch` (Props/C12.lean),
+each of which pins its extracted strings to the literal the shared predicate `SV.Parser.isWordRune` transcribes. -/
 
 end SV.Consistency
